@@ -8,6 +8,7 @@ import (
 	"net/http"
 	"os"
 	"runtime"
+	"testing/synctest"
 	"time"
 
 	"github.com/cenkalti/rain/v2/internal/zzsim/gen"
@@ -144,6 +145,14 @@ func mutateInfo(T *gen.Torrent, muts []MetaMut, r *simrt.Rand) []byte {
 			} else {
 				info["length"] = total
 			}
+		case "wrap_sum":
+			// four files of 2^62 bytes wrap the 64-bit sum back to the length of the rest
+			if fl := files(); len(fl) > 0 {
+				for k := 0; k < 4; k++ {
+					fl = append(fl, map[string]any{"length": int64(1) << 62, "path": []any{fmt.Sprintf("wrap%d", k)}})
+				}
+				info["files"] = fl
+			}
 		case "many_files":
 			var fl []any
 			for i := 0; i < m.N; i++ {
@@ -252,6 +261,16 @@ func RunMetainfo(env *Env, plan *MetaPlan) {
 		if derr != nil {
 			panic("harness: " + derr.Error())
 		}
+		for _, m := range plan.Muts {
+			if m.Kind == "huge_consistent" {
+				// Do not let the client verify gigabytes of existing (sparse) data: that work is
+				// bounded by the size of the torrent, which no property limits, and not what
+				// this world is about.
+				for _, f := range fs.Files(sut.TorrentDir("tt") + "/") {
+					fs.Delete(f)
+				}
+			}
+		}
 		sut2, serr := env.StartNode(host, fs, sut.DBPath, plan.K)
 		if serr != nil {
 			simrt.Logf("session refuses to start on the edited database: %v", serr)
@@ -287,6 +306,10 @@ func RunMetainfo(env *Env, plan *MetaPlan) {
 		for _, f := range files {
 			if f.Length() < 0 {
 				simrt.Violate("C06", "accepted.negative_length", "%s: accepted metainfo has a file of length %d", when, f.Length())
+			}
+			if f.Length() > math.MaxInt64-sum {
+				simrt.Violate("C06", "accepted.file_sum", "%s: the file lengths of the accepted metainfo add up to more than 2^63 (total reported %d)", when, st.Bytes.Total)
+				return
 			}
 			sum += f.Length()
 		}
@@ -333,12 +356,18 @@ func RunMetainfo(env *Env, plan *MetaPlan) {
 		sut.In(func() { tor.Stop() })
 		time.Sleep(sut.Cfg.TrackerStopTimeout + 5*time.Second)
 	}
+	simrt.FreezeTrace()
+	// live memory, not allocation volume (the simulation runs without a collector, so garbage
+	// piles up until this explicit collection). The collection yields in a loop whose length
+	// depends on real time: let every other goroutine of the bubble block first, so that no
+	// scheduling decision (no seeded draw) falls into it.
+	synctest.Wait()
+	runtime.GC()
 	var heap1 runtime.MemStats
 	runtime.ReadMemStats(&heap1)
-	if grown := int64(heap1.TotalAlloc) - int64(heap0.TotalAlloc); grown > int64(2<<30)+int64(len(info))*64 {
-		simrt.Violate("C06", "memory", "adding and starting a %d-byte metainfo allocated %d MiB", len(info), grown>>20)
+	if live := int64(heap1.HeapAlloc) - int64(heap0.HeapAlloc); live > int64(1<<30)+int64(len(info))*64 {
+		simrt.Violate("C06", "memory", "after adding and starting a %d-byte metainfo the process holds %d MiB more live memory", len(info), live>>20)
 	}
-	simrt.FreezeTrace()
 	sut.Close()
 	_ = os.Getenv
 	_ = math.MaxInt64
@@ -355,7 +384,7 @@ func init() {
 		keys := []string{"name", "piece length", "pieces", "length", "files", "private"}
 		n := r.Range(0, 3)
 		for i := 0; i < n; i++ {
-			m := MetaMut{Kind: simrt.Pick(r, []string{"length", "length", "length", "piece_length", "piece_length", "pieces_cut", "pieces_grow", "type", "delete", "both", "files_empty", "path", "nest", "huge_consistent", "huge_consistent", "huge_name", "name_empty", "many_files", "flip", "truncate", "dupkey", "append"}), File: r.Intn(8), Int: simrt.Pick(r, ints), Key: simrt.Pick(r, keys)}
+			m := MetaMut{Kind: simrt.Pick(r, []string{"length", "length", "length", "piece_length", "piece_length", "pieces_cut", "pieces_grow", "type", "delete", "both", "files_empty", "path", "nest", "huge_consistent", "huge_consistent", "wrap_sum", "huge_name", "name_empty", "many_files", "flip", "truncate", "dupkey", "append"}), File: r.Intn(8), Int: simrt.Pick(r, ints), Key: simrt.Pick(r, keys)}
 			switch m.Kind {
 			case "pieces_cut", "pieces_grow":
 				m.N = simrt.Pick(r, []int{1, 19, 20, 40, 20 * 1000})
